@@ -27,6 +27,8 @@ fn near_misses(v: &str) -> Vec<String> {
     // equal after trimming / case folding only
     out.push(format!("{} ", v));
     out.push(format!(" {}", v));
+    out.push(v.to_lowercase());
+    out.push(v.chars().map(|c| if c.is_ascii_uppercase() { c.to_ascii_lowercase() } else { c.to_ascii_uppercase() }).collect());
     out
 }
 
@@ -64,6 +66,8 @@ pub fn run(ctx: &Ctx) -> Report {
     let long = "r".repeat(300);
     let servers: Vec<(String, String)> = vec![
         ("us-east-1".into(), "service".into()),
+        // as written in a configuration file: the credential must match it literally
+        ("US-East-1".into(), "DynamoDB".into()),
         ("".into(), "".into()),
         ("us-east-1".into(), "us-east-1".into()),
         ("é".into(), "s".into()),
@@ -80,23 +84,23 @@ pub fn run(ctx: &Ctx) -> Report {
         // written 2015-12-31T22:00-05:00 = 2016-01-01T03:00Z
         (Instant::from_civil(2016, 1, 1, 3, 0, 0, 0), "2015-12-31T22:00:00-05:00".into(), Some((2015, 12, 31))),
     ];
-    let n_serv = if thorough { servers.len() } else { 3 } as u64;
+    let n_serv = if thorough { servers.len() } else { 4 } as u64;
     let n_inst = if thorough { instants.len() } else { 3 } as u64;
 
     // (1) five-part credentials: date x region x service x terminator near-misses
-    let total1 = n_serv * n_inst * 12 * 10 * 10 * 10 * 2 * 2;
+    let total1 = n_serv * n_inst * 12 * 12 * 12 * 12 * 2 * 2;
     let mut st = par_sweep(total1, |i, st| {
         let mut x = i;
         let carrier = if x % 2 == 0 { Carrier::Header } else { Carrier::Query };
         x /= 2;
         let mode_a = x % 2 == 0;
         x /= 2;
-        let ti = (x % 10) as usize;
-        x /= 10;
-        let si = (x % 10) as usize;
-        x /= 10;
-        let ri = (x % 10) as usize;
-        x /= 10;
+        let ti = (x % 12) as usize;
+        x /= 12;
+        let si = (x % 12) as usize;
+        x /= 12;
+        let ri = (x % 12) as usize;
+        x /= 12;
         let di = (x % 12) as usize;
         x /= 12;
         // quick tier picks the instants with a date subtlety first
@@ -191,18 +195,15 @@ pub fn run(ctx: &Ctx) -> Report {
     //     may vouch for a scope)
     {
         let now = e2e::base_instant();
-        let cfgs: Vec<(&str, &str)> = vec![("us-east-1", "service"), ("us-east-1", "beta"), ("eu-west-1", "service"), ("", "")];
+        let cfgs: Vec<(&str, &str)> = vec![("us-east-1", "service"), ("us-east-1", "beta"), ("eu-west-1", "service"), ("", ""), ("US-EAST-1", "Service")];
         let k = (cfgs.len() * cfgs.len() * 2) as u64; // (server config, credential scoped for config, carrier)
         let depth = 3u32;
         let nh = crate::enumr::seq_count(k, depth);
-        let mut hist = crate::core::Stats::new();
-        for i in 0..nh {
+        let hist = par_sweep(nh, |i, hist| {
             let seq = crate::enumr::seq_decode(i, k, depth);
             if seq.is_empty() {
-                continue;
+                return;
             }
-            hist.evaluations += 1;
-            hist.validated += 1;
             hist.nontrivial(&("history", &seq));
             for (pos, sym) in seq.iter().enumerate() {
                 let carrier = if sym % 2 == 0 { Carrier::Header } else { Carrier::Query };
@@ -216,7 +217,7 @@ pub fn run(ctx: &Ctx) -> Report {
                 cfg.service = server.1.into();
                 let case = Case { wire: WireReq::from_wire(&built.wire), cfg, prov: ProvSpec::standard() };
                 let before = hist.violations.len();
-                let j = e2e::judge_into(total1 + total2 + i * 4 + pos as u64, &case, &mut hist);
+                let j = e2e::judge_into(total1 + total2 + i * 4 + pos as u64, &case, hist);
                 if hist.violations.len() > before {
                     if let Some(v) = hist.violations.last_mut() {
                         v.what = format!("history(step {} of {:?}):{}", pos, seq, v.what);
@@ -225,14 +226,14 @@ pub fn run(ctx: &Ctx) -> Report {
                 }
                 hist.state(&(j.reference.stage as u8, "history"));
             }
-        }
+        });
         st = st.merge(hist);
     }
 
     Report {
         stats: st,
         rule: format!(
-            "(1) five-part credentials: 12 date variants (exact, -1 day, +1 day, 7 digits, trailing space, extended, empty, written-local date, and the numerically equal spellings +D, 0D, 00D, D.0) x 10 near-misses each of region, service and terminator (exact, prefix, suffix, x+v, v+x, UPPER, empty, look-alike, trailing blank, leading blank) x {} server (region, service) pairs x {} request instants (incl. 23:59:59Z, 00:00:00Z and offsets whose UTC date differs from the written date) x signing mode A (correctly signed under the credential's own scope; provider returns that key unconditionally) / B (signed under the server's scope) x carrier; (2) credentials of 1..8 parts, with leading/trailing/double slashes, empty access key and no slash at all; (3) every sequence of 1..3 validations on one thread over 32 symbols (4 server configurations x credential scoped for any of the 4 x carrier): each judged as if it were alone. Oracle: reference verifier (Ok iff all five parts right; arity => IncompleteSignature/400; other mismatch => SignatureDoesNotMatch/403 also in mode A; provider asked iff scope fully correct, with (access key, token, UTC date, server region, server service)). states = distinct (stage, kind, provider ask)",
+            "(1) five-part credentials: 12 date variants (exact, -1 day, +1 day, 7 digits, trailing space, extended, empty, written-local date, and the numerically equal spellings +D, 0D, 00D, D.0) x 12 near-misses each of region, service and terminator (exact, prefix, suffix, x+v, v+x, UPPER, empty, look-alike, trailing blank, leading blank, lower, case-swapped) x {} server (region, service) pairs (incl. a mixed-case one, empty strings, non-ASCII and 300-character values) x {} request instants (incl. 23:59:59Z, 00:00:00Z and offsets whose UTC date differs from the written date) x signing mode A (correctly signed under the credential's own scope; provider returns that key unconditionally) / B (signed under the server's scope) x carrier; (2) credentials of 1..8 parts, with leading/trailing/double slashes, empty access key and no slash at all; (3) every sequence of 1..3 validations on one thread over 50 symbols (5 server configurations, one differing from another in letter case only, x credential scoped for any of the 5 x carrier): each judged as if it were alone. Oracle: reference verifier (Ok iff all five parts right; arity => IncompleteSignature/400; other mismatch => SignatureDoesNotMatch/403 also in mode A; provider asked iff scope fully correct, with (access key, token, UTC date, server region, server service)). states = distinct (stage, kind, provider ask)",
             n_serv, n_inst
         ),
         bounds: json!({"servers": n_serv, "instants": n_inst, "cases": total1 + total2}),
